@@ -39,6 +39,9 @@ CONSTANTS
   TestCells,     \* TRUE: originators may send speed-test request cells
   E2E,           \* TRUE: two circuits may be linked at a rendezvous point (hidden services)
   Aead,          \* TRUE: a layer only comes off if it authenticates (ChaCha20-Poly1305); FALSE: negative control
+  RelayOnce,     \* TRUE: a created for a circuit that was already turned into a relay is dropped (the code since the fix);
+                 \* FALSE: the pinned earlier behaviour - while the exit entry lingers (remove_tunnel_delay) the forward route
+                 \* is re-pointed by whichever created arrives last (negative control for PathAgreement)
   CheckIdent,    \* TRUE: an answer must carry the identifier of the outstanding request (the code); FALSE: negative control
   AutoTimers     \* TRUE: sweeps/pings are driven by sweepAt/pingAt (model checking); FALSE: any time (trace validation)
 
@@ -384,7 +387,7 @@ OnCreated(d) ==
         \* we are a relay that asked the next hop to join: turn the exit entry into a relay pair, answer extended
         LET req == createC[n][m.ident] IN
         /\ createC' = [createC EXCEPT ![n] = Del(@, m.ident)]
-        /\ IF ~Has(exit[n], req.from) THEN
+        /\ IF ~Has(exit[n], req.from) \/ (RelayOnce /\ Has(relay[n], req.from)) THEN
               /\ Emit({d}, <<>>) /\ UNCHANGED <<relay, pend, ctr>>
            ELSE
              LET key == exit[n][req.from].key
@@ -911,6 +914,22 @@ KeyAgreement ==
       \A i \in DOMAIN c.hops :
         /\ [n |-> c.hops[i].peer, key |-> c.hops[i].key] \in hist.joined
         /\ \A j \in hist.joined : j.key = c.hops[i].key => j.n = c.hops[i].peer
+\* an established hop is never changed: the route laid down for a circuit leads, hop by hop, to the entries that hold the
+\* hop keys the originator accepted. Wherever the forward relay entry behind hop i (still) exists it points to the peer of
+\* hop i+1, and the entry it points to - while that exists - is keyed with the originator's key for hop i+1.
+RECURSIVE PathOK(_, _, _, _)
+PathOK(hops, i, n, id) ==
+  IF i >= Len(hops) \/ ~Has(relay[n], id) THEN TRUE
+  ELSE LET r == relay[n][id]  m == r.next IN
+       IF r.dir # F \/ r.rdv THEN TRUE
+       ELSE /\ m = hops[i + 1].peer
+            \* (a hop key made with an attacker ephemeral - the selected peer itself misbehaving - has no honest entry)
+            /\ (hops[i + 1].key.e2 > 0 /\ Has(relay[m], r.to)) => relay[m][r.to].key = hops[i + 1].key
+            /\ (hops[i + 1].key.e2 > 0 /\ Has(exit[m], r.to) /\ ~Has(relay[m], r.to)) => exit[m][r.to].key = hops[i + 1].key
+            /\ PathOK(hops, i + 1, m, r.to)
+PathAgreement ==
+  \A x \in Circs : LET c == circ[x[1]][x[2]] IN
+     Len(c.hops) >= 1 => PathOK(c.hops, 1, c.hops[1].peer, x[2])
 \* a hop is only added by an answer that carries the identifier of the outstanding request of that circuit
 AnswerMustMatch ==
   [][\A n \in Node : \A c \in DOMAIN circ[n] \cap DOMAIN circ'[n] :
